@@ -266,7 +266,10 @@ def run(ctx):
         Profile(max_depth=1, max_arms=8, pred_depth=2, p_else=0.3),
         Profile(max_depth=6, max_arms=2, pred_depth=1, p_leaf_cond=0.45),
         Profile(max_depth=1, max_arms=2, pred_depth=5),
+        Profile(max_depth=3, max_arms=4, pred_depth=2, p_leaf_cond=0.2, p_else=0.5, p_const_pred=0.15),
     ]
+    if not ctx.quick():
+        profiles.append(Profile(max_depth=12, max_arms=2, pred_depth=1, p_leaf_cond=0.45, p_else=0.5))
     covered = total_returns = 0
     for i in range(nprog):
         g = ProgGen(rnd, rnd.choice(profiles))
